@@ -189,7 +189,12 @@ func (h *H) run(ctx context.Context, f, arg int) error {
 		}
 		h.insts = append(h.insts, in)
 		auto = h.auto
-		return []string{fmt.Sprintf("cbin %d %d %d %d", in.k, f, arg, rootID)}
+		// the entry line, and what the instance sees of its context on entry
+		st := "live"
+		if ctx.Err() != nil {
+			st = "canceled"
+		}
+		return []string{fmt.Sprintf("cbin %d %d %d %d", in.k, f, arg, rootID), fmt.Sprintf("probe ctx %d %s", in.k, st)}
 	})
 	if ctx.Err() != nil {
 		h.tag("entered-cancelled")
@@ -469,6 +474,7 @@ func exec(state bool) func(script []string, opt comp.Options) comp.Result {
 		}
 		log.Add("cfg %s %d %d %d", kind, cmp, b2i(retry), ncb)
 
+		unstable := false
 		var gates []hook.Gate
 		var wcalls []*wcall
 		var actors sync.WaitGroup
@@ -669,7 +675,12 @@ func exec(state bool) func(script []string, opt comp.Options) comp.Result {
 					for _, g := range gates {
 						g.Open()
 					}
-					comp.WaitQuiet(log, quietFor(), 10*quietFor())
+					if !comp.WaitQuiet(log, quietFor(), 10*quietFor()) {
+						unstable = true
+					}
+					if state {
+						h.api([]string{"getstate"})
+					}
 					h.probeCtxs()
 					h.probeChans()
 					log.With(func(pending []int) []string {
@@ -765,7 +776,7 @@ func exec(state bool) func(script []string, opt comp.Options) comp.Result {
 		}
 		h.tagMu.Lock()
 		defer h.tagMu.Unlock()
-		return comp.Result{History: lines, Tags: h.tagSet.List()}
+		return comp.Result{History: lines, Tags: h.tagSet.List(), Unstable: unstable}
 	}
 }
 
@@ -782,14 +793,16 @@ func gen(state bool) func(rng *rand.Rand, tier string) []string {
 			cmp = rng.Intn(3)
 		}
 		retry := rng.Intn(5) < 2
-		pats := []string{"s", "d", "ds", "dds", "dd", "dddds"}
+		pats := []string{"s", "ds", "dds", "ds", "ddds"} // finite: a cancelled root context would otherwise be retried for ever
 		ds := []int{2, 3, 8}
 		out := []string{fmt.Sprintf("cfg %s %d %d %d %s %d", kind, cmp, b2i(retry), rng.Intn(3), pats[rng.Intn(len(pats))], ds[rng.Intn(len(ds))])}
 		multi := rng.Intn(3) == 0
-		risky := rng.Intn(25) == 0 // may clear the routine inside an exit latency (D16) or move a failed routine to a new context (D14)
+		risky := tier == "thorough" && rng.Intn(40) == 0 // may clear the routine inside an exit latency (D16) or move a failed routine to a new context (D14)
 		nwait, ngate := 0, 0
+		nasync := 0
 		as := func(s string) string {
-			if multi && rng.Intn(3) == 0 {
+			if multi && nasync < 2 && rng.Intn(3) == 0 {
+				nasync++
 				return "async " + s
 			}
 			return s
@@ -832,12 +845,12 @@ func gen(state bool) func(rng *rand.Rand, tier string) []string {
 			}
 			c := 1 + rng.Intn(2)
 			r := b2i(rng.Intn(3) == 0)
-			if retry && !risky && rng.Intn(4) != 0 {
-				// keep to one context or restart explicitly (the D14 pattern is a known finding with its own corpus entry)
-				c = 1
-			}
 			if rng.Intn(12) == 0 {
 				c = 0
+			}
+			if retry && !risky && c != 0 && r == 0 {
+				// keep to one context unless restarting explicitly (the D14 pattern is a known finding with its own corpus entry)
+				c = 1
 			}
 			return fmt.Sprintf("setctx %d %d", c, r)
 		}
@@ -876,11 +889,16 @@ func gen(state bool) func(rng *rand.Rand, tier string) []string {
 			out = append(out, pre...)
 		}
 		for len(out) < steps {
+			if nasync > 0 && rng.Intn(2) == 0 {
+				// at most two concurrent actors besides the director at a time
+				out = append(out, "join")
+				nasync = 0
+			}
 			r := rng.Intn(100)
 			switch {
 			case r < 22:
 				// several supersessions inside one exit latency
-				n := 2 + rng.Intn(3)
+				n := 2 + rng.Intn(2)
 				for i := 0; i < n; i++ {
 					out = append(out, as(supersede()))
 				}
@@ -962,6 +980,12 @@ func init() {
 			{"cfg plain 0 0 1", "waitexited 0", "waitexited 1", "setctx 1 0", "setroutine 1", "settle", "waitexited 0", "waitexited 1", "restart", "exit old err 2", "settle", "quiesce", "exit old err 3", "quiesce", "waitexited 0", "cancelw 0", "quiesce"},
 			// an instance held before its final section while it is superseded twice
 			{"cfg plain 0 1 1 d 3", "setctx 1 0", "setroutine 1", "settle", "gate hold", "exit old err 1", "waitgate 0", "restart", "setroutine 2", "open 0", "settle", "probe", "quiesce", "exit old ok", "quiesce"},
+			// D16 (open): routine cleared and set again inside the exit latency of the first instance
+			{"cfg plain 0 0 0", "setctx 1 0", "setroutine 1", "settle", "setroutine 0", "setroutine 2", "settle", "probe", "quiesce", "exit old ctx", "exit old ok", "quiesce"},
+			// D14 (open): a failed routine waiting for its retry is moved to another context
+			{"cfg plain 0 1 1 ds 20", "setctx 1 0", "setroutine 1", "settle", "exit old err 1", "settle", "setctx 2 0", "advance", "exit old ok", "quiesce"},
+			// D17 (open): a retry timer that fired before stop() restarts a routine that has succeeded meanwhile
+			{"cfg plain 0 1 1 ds 20", "setctx 1 0", "setroutine 1", "settle", "exit old err 1", "settle", "gate hold", "waitgate 0", "restart", "settle", "exit old ok", "settle", "open 0", "settle", "quiesce", "exit old ok", "quiesce"},
 			// a fresh execute goroutine held at its start, superseded, context cancelled by the environment
 			{"cfg plain 0 0 1", "setctx 1 0", "gate exec", "setroutine 1", "waitgate 0", "restart", "open 0", "settle", "cancelroot 1", "restart", "waitexited 1", "exit old ctx", "quiesce", "setctx 2 0", "settle", "exit old ok", "quiesce"},
 		},
@@ -971,6 +995,8 @@ func init() {
 		Corpus: [][]string{
 			{"cfg state 1 0 1", "setsr 1", "setctx 1 0", "setstate 1", "settle", "setstate 2", "setstate 2", "swap 3", "swap nil", "getstate", "probe", "exit old ctx", "settle", "exit old ctx", "quiesce", "getstate", "exit old ok", "quiesce"},
 			{"cfg state 2 0 0", "setctx 1 0", "setstate 1", "setsr 2", "settle", "setstate 3", "swap 5", "swap 2", "getstate", "settle", "exit old ctx", "quiesce", "getstate", "setsr 1", "exit old ctx", "quiesce"},
+			// D16 (open), state variant
+			{"cfg state 1 0 0", "setctx 1 0", "setsr 1", "setstate 1", "settle", "setstate 0", "setstate 2", "settle", "probe", "quiesce", "exit old ctx", "exit old ok", "quiesce"},
 			// concurrent SetState / SetContext / exits (D4)
 			{"cfg state 0 0 1", "setsr 1", "setctx 1 0", "mode auto", "async setstate 1", "async setctx 2 0", "async setstate 2", "async setctx 1 1", "async setstate 3", "join", "quiesce", "getstate", "exit old ok", "quiesce"},
 		},
